@@ -412,6 +412,7 @@ def _key_roundtrips(ctx):
         return (cm(k, "type"), bool(cm(k, "isPublic")), cm(k, "data"), cm(cm(k, "public"), "blob"))
 
     n_trips = 0
+    seen_types = set()
     for label, ktype, privobj in _key_pool():
         priv = vm.new(KeyC, privobj)
         pub = cm(priv, "public")
@@ -434,7 +435,11 @@ def _key_roundtrips(ctx):
         if ktype != "Ed25519":
             routes += [("private OpenSSH PEM", priv, lambda k: cm(k, "toString", "openssh", subtype="PEM"), {}, {}),
                        ("private OpenSSH PEM with passphrase", priv, lambda k: cm(k, "toString", "openssh", subtype="PEM", passphrase=b"secret"), {"passphrase": b"secret"}, {})]
+        first_of_type = ktype not in seen_types
+        seen_types.add(ktype)
         for route, key, ser, parse_kw, _ in routes:
+            if ctx.tier != "thorough" and not first_of_type and any(w in route for w in ("with comment", "str passphrase", "(type 'blob')", "PEM with passphrase")):
+                continue        # quick tier: the option variants are run for the first key of each type only
             n_trips += 1
             # keys of a class with its own known behaviour are reported under their own construct, so that a finding about them cannot hide a new fault of the others
             construct = f"{QK[:-1]} | {ktype}{' (p > q)' if '(p > q)' in label else ''} {'public' if key is pub else 'private'} key via {route}"
